@@ -16,25 +16,33 @@ MODELS = ["hertz_para", "hertz_cone", "hertz_pyr3s", "sneddon_spher_approx",
           "power_layer_clifford_2009"]
 POWER = {"hertz_para", "hertz_cone", "hertz_pyr3s"}
 P1 = ["compute_tip_position", "correct_force_offset", "correct_tip_offset"]
+# without the tip-offset correction the contact point lies far from the
+# origin of the abscissa (micrometres): unit-frame slips of the contact
+# point become visible
+P0 = ["compute_tip_position", "correct_force_offset"]
 
 
 # --------------------------------------------------------------------------
 # curves
 # --------------------------------------------------------------------------
-def rank_curve(n_app, n_ret):
+def rank_curve(n_app, n_ret, n_mid=0):
     """tiny noise-free curve on an exact binary grid with an innate
     'tip position' column (no preprocessing needed): interval bounds can be
     placed exactly on / between samples"""
     import pathlib
     from nanite import Indentation
     import synth
-    m = max(n_app, n_ret)
+    m = max(n_app, n_ret, n_mid)
     g = (np.arange(m) - 2) * 2.0 ** -23          # ascending grid
-    tip = np.concatenate([g[:n_app][::-1], g[:n_ret]])
+    # optional third segment (index 1, e.g. a pause) between approach (0)
+    # and retract (then index 2)
+    tip = np.concatenate([g[:n_app][::-1], g[:n_mid], g[:n_ret]])
     f = synth.model_force("hertz_para", tip,
                           dict(E=3000., R=10e-6, nu=.5, contact_point=0.,
                                baseline=0.))
-    seg = np.concatenate([np.zeros(n_app, np.uint8), np.ones(n_ret, np.uint8)])
+    seg = np.concatenate([np.zeros(n_app, np.uint8),
+                          np.ones(n_mid, np.uint8),
+                          np.full(n_ret, 2 if n_mid else 1, np.uint8)])
     data = {"force": f, "tip position": tip, "height (measured)": tip - f / .05,
             "time": np.arange(tip.size) * 1e-3, "segment": seg}
     meta = {"path": pathlib.Path("/synthetic/rank.h5"), "enum": 0,
@@ -67,7 +75,17 @@ def make_fit_curve(cfg):
     with warnings.catch_warnings():
         warnings.simplefilter("ignore")
         idnt.apply_preprocessing(list(P1))
+        if cfg.get("pipe") == "P0":
+            t1 = np.array(idnt["tip position"], copy=True)
+            idnt.apply_preprocessing(list(P0))
+            # where the tip-offset correction would have put the origin
+            cfg["_off"] = float(np.asarray(idnt["tip position"])[0] - t1[0])
     return idnt
+
+
+def shifted(cfg, iv):
+    off = cfg.get("_off", 0.)
+    return [float(v) + off for v in iv]
 
 
 def make_params(cfg, idnt):
@@ -77,8 +95,9 @@ def make_params(cfg, idnt):
         warnings.simplefilter("ignore")
         params = idnt.get_initial_fit_parameters(model_key=cfg["model"])
     ekey = "E" if "E" in params else "E_S"
-    if cfg.get("cp_init") is not None:
-        params["contact_point"].set(value=cfg["cp_init"])
+    off = cfg.get("_off", 0.)
+    if cfg.get("cp_init") is not None or off:
+        params["contact_point"].set(value=(cfg.get("cp_init") or 0.) + off)
     pat = cfg.get("vary", "default")
     if pat == "fixE":
         params[ekey].set(vary=False)
@@ -91,6 +110,16 @@ def make_params(cfg, idnt):
         params[ekey].set(value=500., max=1000.)
     elif pat == "expr":
         params["baseline"].set(expr="0*contact_point")
+    elif pat == "exprE":
+        # an expression that follows a varied parameter, with finite
+        # (inactive) bounds of its own
+        params["baseline"].set(expr=f"{ekey}*1e-15", min=-1e-9, max=1e-9)
+    elif pat == "exprEL" and "E_L" in params:
+        params["E_L"].set(expr="E_S/100")
+    elif pat == "cpbound":
+        # finite bounds on the contact point that stay inactive
+        cpv = params["contact_point"].value
+        params["contact_point"].set(min=cpv - 4e-6, max=cpv + 4e-6)
     elif pat == "varyR" and "R" in params:
         params["R"].set(vary=True, min=1e-6, max=1e-4)
     return params
@@ -114,7 +143,8 @@ def run_config(cfg):
     out = {"cfg": cfg, "fits": [], "pairs": []}
     try:
         if cfg["kind"] == "rank":
-            idnt, g = rank_curve(cfg["n_app"], cfg["n_ret"])
+            idnt, g = rank_curve(cfg["n_app"], cfg["n_ret"],
+                                 cfg.get("n_mid", 0))
             rx = [rank_to_float(g, cfg["lo"]), rank_to_float(g, cfg["hi"])]
             kw = dict(model_key="hertz_para", segment=cfg["segment"],
                       range_type="absolute", range_x=rx, weight_cp=0)
@@ -134,7 +164,8 @@ def run_config(cfg):
                 kw["range_x"] = few_points_interval(
                     idnt, cfg["segment"], int(iv[3:]))
             else:
-                kw["range_x"] = list(iv)
+                kw["range_x"] = shifted(cfg, iv) if iv[0] != iv[1] \
+                    else list(iv)
             kw["range_type"] = "absolute"
         elif mode == "rel":
             kw["range_type"] = "relative cp"
@@ -142,10 +173,14 @@ def run_config(cfg):
         else:
             kw["range_type"] = "absolute"
             kw["range_x"] = list(cfg["interval"])
+            if cfg["interval"][0] != cfg["interval"][1]:
+                kw["range_x"] = shifted(cfg, cfg["interval"])
             kw["optimal_fit_edelta"] = True
             kw["optimal_fit_num_samples"] = cfg["nsamp"]
         if cfg.get("method"):
             kw["method"] = cfg["method"]
+        if cfg.get("post") in ("scan", "estimate"):
+            kw["optimal_fit_num_samples"] = 6
         if cfg.get("prefit") and mode == "abs" and \
                 all(np.isfinite(kw["range_x"])):
             # a first fit on the SAME object with a near-by interval: the
@@ -161,7 +196,8 @@ def run_config(cfg):
             except BaseException as exc:
                 if isinstance(exc, (KeyboardInterrupt, SystemExit)):
                     raise
-        rec = fitpasses.observe_fit(idnt, kw, label=json.dumps(cfg))
+        rec = fitpasses.observe_fit(idnt, kw, label=json.dumps(cfg),
+                                    post=cfg.get("post"))
         out["fits"].append(rec)
         if cfg.get("pair") and not rec["raised"] and cfg["k"] != 1:
             cfg1 = dict(cfg, k=1.0)
@@ -198,6 +234,19 @@ def rank_lattice(tier, rng):
             for lo, hi in itertools.product(ranks, ranks):
                 cfgs.append(dict(kind="rank", n_app=n_app, n_ret=n_ret,
                                  segment=seg, lo=lo, hi=hi))
+    # curves with three segments (approach, pause, retract): every segment
+    # index can be requested
+    lay3 = [(5, 4, 6), (6, 6, 4)] if tier == "thorough" else [(5, 4, 6)]
+    for n_app, n_mid, n_ret in lay3:
+        m = max(n_app, n_mid, n_ret)
+        ranks = list(range(1, 2 * m + 2))
+        for seg in (0, 1, 2):
+            pairs = list(itertools.product(ranks, ranks))
+            if tier != "thorough":
+                pairs = [(r, r) for r in ranks[:3]] + rng.sample(pairs, 60)
+            for lo, hi in pairs:
+                cfgs.append(dict(kind="rank", n_app=n_app, n_mid=n_mid,
+                                 n_ret=n_ret, segment=seg, lo=lo, hi=hi))
     return cfgs
 
 
@@ -230,7 +279,8 @@ def fit_lattice(tier, rng, focus):
                    segment=seg, mode=mode, noise=noise, k=k,
                    weight_cp=rng.choice([0, 5e-7, 1e-6]),
                    vary=rng.choice(["default", "default", "fixE", "fixcp",
-                                    "fixbl", "boundE", "expr", "varyR"]),
+                                    "fixbl", "boundE", "expr", "varyR",
+                                    "exprE", "exprEL", "cpbound"]),
                    cp_init=rng.choice([None, 1e-7, -5e-8]),
                    n_app=rng.choice([300, 300, 700]))
         if mode == "abs":
@@ -241,6 +291,12 @@ def fit_lattice(tier, rng, focus):
             cfg["interval"] = rng.choice([[0, 0], [-np.inf, 2e-7],
                                           [2e-7, -np.inf], [-5e-7, 1e-7]])
             cfg["nsamp"] = rng.choice([8, 10])
+        if mode != "edelta" and rng.random() < (.5 if focus == "C11" else .25):
+            cfg["pipe"] = "P0"
+        if mode != "edelta" and rng.random() < (.3 if focus == "C04" else .1):
+            # something else happens between the fit and the inspection
+            cfg["post"] = rng.choice(["scan", "estimate", "rate", "refit",
+                                      "initparams"])
         if rng.random() < .1:
             cfg["method"] = "nelder"
         if mode == "abs" and rng.random() < .3:
@@ -248,7 +304,8 @@ def fit_lattice(tier, rng, focus):
         if focus == "C11" or rng.random() < .25:
             # k-equivalence is owed exactly for noise-free data, and for
             # noisy data with contact-point weighting off
-            if model in POWER and cfg["vary"] in ("default", "fixbl") \
+            if model in POWER and cfg["vary"] in ("default", "fixbl",
+                                                  "cpbound") \
                     and cfg.get("method") is None and curve == "syn":
                 cfg["pair"] = True
                 cfg["weight_cp"] = 0
@@ -324,6 +381,14 @@ def run_engine(ctx, prefix, focus, with_ranks):
         for p in r["pairs"]:
             p["cfg"] = r["cfg"]
             pairs.append(p)
+    # vacuity guard: when most calls raise, nothing was examined
+    nfitcfg = sum(1 for c in cfgs if c["kind"] == "fit")
+    nfitrec = sum(1 for r in fits if r["cfg"]["kind"] == "fit")
+    if nfitrec < .6 * nfitcfg:
+        raise MachineryError(
+            f"only {nfitrec} of {nfitcfg} fit configurations produced a "
+            f"record (calls that raised: {raised}); the check would be "
+            "vacuous")
     # the projection must reproduce the requested ranks on rank curves
     for rec in fits:
         if "_want" in rec and not rec["req_zero"] and \
@@ -385,11 +450,13 @@ def run_engine(ctx, prefix, focus, with_ranks):
 
 def fingerprint(c):
     if c["kind"] == "rank":
-        return f"rank:{c['n_app']},{c['n_ret']},seg{c['segment']}," \
+        return f"rank:{c['n_app']},{c.get('n_mid', 0)},{c['n_ret']}," \
+               f"seg{c['segment']}," \
                f"lo{c['lo']},hi{c['hi']}"
     return "fit:" + ",".join(f"{k}={c[k]}" for k in
                              ("curve", "model", "segment", "mode", "interval",
-                              "k", "weight_cp", "vary", "cp_init", "noise")
+                              "k", "weight_cp", "vary", "cp_init", "noise",
+                              "pipe", "post")
                              if k in c)
 
 
